@@ -116,10 +116,49 @@ def h_parse_tok(idx: List[int]):
 # "missing end" error can never mask the break/continue rule.  A newline may precede the inner statement
 # (so the reported line matters).  The text also goes through the real Template() constructor: a
 # malformed template must surface as ParseError there, never as a SyntaxError from compile().
-OUTER = [("", ""), ("{% for i in r %}", "{% end %}"), ("{% while x %}", "{% end %}"),
-         ("{% for i in r %}{% apply f %}", "{% end %}{% end %}"), ("{% apply f %}{% for i in r %}", "{% end %}{% end %}")]
-OPEN = ["{% if a %}", "{% try %}", "{% apply f %}", "{% block b %}", "{% for j in r %}", "{% while y %}"]
-INNER = ["{% break %}", "{% continue %}", "{{ v }}", "{% else %}{% break %}", "{% finally %}{% continue %}"]
+OUTER = [("", "", []), ("{% for i in r %}", "{% end %}", ["loop"]), ("{% while x %}", "{% end %}", ["loop"]),
+         ("{% for i in r %}{% apply f %}", "{% end %}{% end %}", ["loop", "apply"]),
+         ("{% apply f %}{% for i in r %}", "{% end %}{% end %}", ["apply", "loop"])]
+OPEN = [("{% if a %}", "{% end %}", "if"), ("{% try %}", "{% finally %}{% end %}", "try"),
+        ("{% apply f %}", "{% end %}", "apply"), ("{% block b %}", "{% end %}", "block"),
+        ("{% for j in r %}", "{% end %}", "loop"), ("{% while y %}", "{% end %}", "loop")]
+INNER = ["{% break %}", "{% continue %}", "{{ v }}", "{% else %}{% break %}"]
+
+
+def _chain(outer, opens):
+    return OUTER[outer][2] + [OPEN[o][2] for o in opens]
+
+
+def _in_loop(chain):
+    """break/continue is legal iff, walking outwards from the statement, a for/while is met before any
+    apply (an apply body becomes a nested function) - stated independently of the parser."""
+    for k in reversed(chain):
+        if k == "loop":
+            return True
+        if k == "apply":
+            return False
+    return False
+
+
+def _nest_legal(outer, opens, inner):
+    chain = _chain(outer, opens)
+    if inner == 2:
+        return True
+    if inner == 3:
+        # {% else %} must attach to the innermost if/for/while; what follows the else of a LOOP is no
+        # longer inside that loop (Python: "break" in a for-else clause belongs to the enclosing loop)
+        if not chain or chain[-1] not in ("if", "loop"):
+            return False
+        if chain[-1] == "loop":
+            chain = chain[:-1]
+    return _in_loop(chain)
+
+
+def classify_nest(outer, opens, inner, nl):
+    chain = _chain(outer, opens)
+    if inner == 3 and chain and chain[-1] == "loop" and not _in_loop(chain[:-1]):
+        return "break_in_loop_else"
+    return None
 
 
 def pre_parse_nest(outer: int, opens: List[int], inner: int, nl: bool) -> bool:
@@ -128,52 +167,40 @@ def pre_parse_nest(outer: int, opens: List[int], inner: int, nl: bool) -> bool:
     for o in opens:
         if not 0 <= o < len(OPEN):
             return False
+    if inner == 3 and len(opens) > 0 and opens[-1] == 1:
+        return False          # try/else without except: a Python-level matter, not claimed
+    if P.exclude and classify_nest(outer, opens, inner, nl) in P.exclude:
+        return False
     return in_shard(outer + len(OUTER) * (opens[0] if len(opens) > 0 else 0))
 
 
-def _nest_in_loop(outer, opens):
-    """reference rule, stated independently of the parser: break/continue is legal iff, walking outwards
-    from the statement, a for/while is met before any apply (apply bodies become nested functions)."""
-    chain = [0 if o == 2 else 1 if o >= 4 else 2 for o in opens]       # 0 apply, 1 loop, 2 other
-    chain = {0: [], 1: [1], 2: [1], 3: [1, 0], 4: [0, 1]}[outer] + chain
-    for k in reversed(chain):
-        if k == 1:
-            return True
-        if k == 0:
-            return False
-    return False
-
-
-@harness(pre=pre_parse_nest, quick=dict(D=2, NI=3, timeout=100, reach_timeout=100),
-         thorough=dict(D=3, NI=len(INNER), timeout=1400),
-         nshards=dict(quick=6, thorough=30),
+@harness(pre=pre_parse_nest, quick=dict(D=2, NI=4, timeout=100, reach_timeout=100),
+         thorough=dict(D=3, NI=4, timeout=1400),
+         nshards=dict(quick=6, thorough=30), classify=classify_nest,
          reach=["break_two_deep_no_loop", "break_under_apply_in_loop", "break_two_deep_in_loop_ok",
-                "error_on_line_2"],
+                "error_on_line_2", "else_then_break_in_if_in_loop"],
          units=["template._parse", "template._TemplateReader", "template.Template.__init__"],
-         stubs=["text = OUTER[outer] open + OPEN[o] for o in opens (<= D) + optional newline + INNER[inner] + "
-                "matching ends; OUTER=%r OPEN=%r INNER=%r (first NI in quick)" % (OUTER, OPEN, INNER),
+         stubs=["text = OUTER[outer] + OPEN[o] for o in opens (<= D) + optional newline + INNER[inner] + the "
+                "matching closers (well nested, so 'missing end' can never mask the rule); OUTER=%r OPEN=%r "
+                "INNER=%r" % ([x[:2] for x in OUTER], [x[:2] for x in OPEN], INNER),
                 PRINT_STUB],
-         outside=["nesting deeper than D + 2", "openers outside the pool"])
+         outside=["nesting deeper than D + 2", "openers outside the pool", "try/else without except"])
 def h_parse_nest(outer: int, opens: List[int], inner: int, nl: bool):
     """break/continue legality through >= 2 levels of well-nested blocks (decided for the class: every
-    combination of openers), real parser == reference and == the independent loop/apply rule."""
-    text = (OUTER[outer][0] + "".join([OPEN[o] for o in opens]) + ("\n" if nl else "") + INNER[inner]
-            + "{% end %}" * len(opens) + OUTER[outer][1])
-    r = compare_parse(text)
-    legal = True
-    if inner != 2:
-        legal = _nest_in_loop(outer, opens)
-        if inner == 3:      # else needs if/for/while/try directly around it
-            legal = legal and len(opens) > 0 and opens[-1] in (0, 1, 4, 5)
-        if inner == 4:
-            legal = len(opens) > 0 and opens[-1] == 1 and legal
-    assert (r == "ok") == legal, "%r: parser says %s, loop/apply rule says legal=%r" % (text, r, legal)
-    # the public constructor: ParseError (with the line of the statement) or a compiled template
+    combination of openers): real parser == reference parser == the independent loop/apply rule, and the
+    public Template() constructor raises ParseError on the statement's line (never SyntaxError)."""
+    # block names are made unique per nesting position (duplicate names are outside the claim)
+    text = (OUTER[outer][0] + "".join([OPEN[o][0].replace(" b ", " b%d " % k) for k, o in enumerate(opens)])
+            + ("\n" if nl else "") + INNER[inner]
+            + "".join([OPEN[o][1] for o in reversed(opens)]) + OUTER[outer][1])
+    legal = _nest_legal(outer, opens, inner)
     try:
         T.Template(text, name="t.txt")
         made = None
     except T.ParseError as e:
         made = e
+    except SyntaxError as e:
+        raise AssertionError("Template(%r): %s from compile() instead of ParseError" % (text, type(e).__name__))
     if legal:
         assert made is None, "Template(%r) raised %r" % (text, made)
     else:
@@ -183,6 +210,8 @@ def h_parse_nest(outer: int, opens: List[int], inner: int, nl: bool):
             made.lineno, want_line, text)
         if nl:
             reached("error_on_line_2")
+    r = compare_parse(text)
+    assert (r == "ok") == legal, "%r: parser says %s, loop/apply rule says legal=%r" % (text, r, legal)
     if inner <= 1 and len(opens) == 2 and outer == 0 and opens[0] < 4 and opens[1] < 4:
         assert not legal
         reached("break_two_deep_no_loop")
@@ -192,6 +221,9 @@ def h_parse_nest(outer: int, opens: List[int], inner: int, nl: bool):
     if inner <= 1 and outer == 1 and len(opens) == 2 and opens[0] == 0 and opens[1] == 1:
         assert legal
         reached("break_two_deep_in_loop_ok")
+    if inner == 3 and outer == 1 and len(opens) == 1 and opens[0] == 0:
+        assert legal
+        reached("else_then_break_in_if_in_loop")
 
 
 WSA = " \t\nab<"
